@@ -49,7 +49,7 @@ func (c *Check) NumCases(tier string) int {
 	if tier == "thorough" {
 		return 5000
 	}
-	return 300
+	return 900
 }
 func (c *Check) Rule() string {
 	return "case index modulo 3 selects the part; every choice from gen.NewRand(seed,index,stream). " +
